@@ -239,6 +239,60 @@ theorem insecure_on_succeeds (classify : Bytes → Option GName) (hf : Nat) (c :
     · split at hp <;> first | (injection hp with hp; subst hp; rfl) | simp at hp
   simp [outcome, hp, handshakeOk, hv]
 
+/-- Which name is verified: a preset `server.sni` wins (even an empty one); otherwise the client's SNI if it is non-empty;
+    otherwise the host of the server address. -/
+theorem eff_sni_precedence (c : Cfg) :
+    (∀ x, c.serverSni = some x → effSni c = x)
+    ∧ (c.serverSni = none → ∀ y, c.clientSni = some y → y ≠ [] → effSni c = y)
+    ∧ (c.serverSni = none → (c.clientSni = none ∨ c.clientSni = some []) → effSni c = c.address) := by
+  refine ⟨fun x hx => by simp [effSni, hx], fun hs y hy hne => ?_, fun hs hc => ?_⟩
+  · cases y with
+    | nil => exact absurd rfl hne
+    | cons a t => simp [effSni, hs, hy]
+  · rcases hc with hc | hc <;> simp [effSni, hs, hc]
+
+/-- Shape of what the hook builds: an IP literal is verified with `set1_ip` and sends NO server_name extension (RFC 6066); a
+    host name is sent as SNI and is the very name that is verified; a connection object without reference identifier exists
+    only with ssl_insecure on and an empty name; with ssl_insecure off and an empty name the hook refuses (`noSni`). -/
+theorem plan_shape (classify : Bytes → Option GName) (hf : Nat) (c : Cfg) :
+    (∀ p, startServer classify hf c = .plan p →
+        (∀ a, p.ref = some (.addr a) → p.sniExt = none)
+        ∧ (∀ h, p.ref = some (.host h) → p.sniExt = some h)
+        ∧ (p.ref = none → c.insecure = true ∧ effSni c = [] ∧ p.verifyPeer = false)
+        ∧ p.verifyPeer = !c.insecure)
+    ∧ (c.insecure = false → effSni c = [] → startServer classify hf c = .noSni) := by
+  constructor
+  · intro p hp
+    unfold startServer at hp
+    simp only [] at hp
+    split at hp
+    · rename_i he
+      split at hp
+      · rename_i hi
+        simp only [StartRes.plan.injEq] at hp; subst hp
+        have : effSni c = [] := by simpa using he
+        simp [hi, this]
+      · cases hp
+    · split at hp
+      · simp only [StartRes.plan.injEq] at hp; subst hp; simp
+      · simp only [StartRes.plan.injEq] at hp; subst hp; simp
+      · cases hp
+  · intro hi he
+    simp [startServer, he, hi]
+
+/-- A SAN pattern that does not begin with `*` is compared literally (ASCII case-insensitively) by the OpenSSL transcription:
+    no wildcard semantics can arise from `w*.x`, `www.*.x` or from names without `*`. -/
+theorem ossl_literal_unless_leading_star (p r : Bytes) (h : p.head? ≠ some star) :
+    osslMatchDns p r = (!p.isEmpty && asciiLower p == asciiLower r) := by
+  have hv : validStar p = false := by
+    unfold validStar
+    split
+    · rename_i a b s
+      have : a ≠ star := by intro ha; subst ha; simp at h
+      simp [this]
+    · rfl
+  simp [osslMatchDns, hv]
+
 /-- non-vacuity: both outcomes occur with verification on -/
 example : outcome (fun b => some (.dns b)) 36 ⟨false, none, some (strBytes "example.com"), strBytes "10.0.0.1"⟩ true
     [.dns (strBytes "example.com")] = .established := by decide +kernel
